@@ -34,7 +34,13 @@ def handleDiff (i o : Json) : Except String Verdict := do
         let b ← need "emapnull" fun d => edgeAttrNullRemovesAttr ("`" ++ eref ++ ": {style.opacity: null}`") w d
         pure (firstViol [a, b])
       | _ => pure (some ("redeclaration-rejected", s!"{eref}.style.opacity: 0.35"))
-    return violToVerdict (firstViol [v1, v2, v3, v4, v5, v6, v7])
+    let v8 ← match ← obsOf o "chain" with
+      | .graph w => do
+        let a ← need "chainnull" fun d => chainNullRemovesAll "`ZZa -> ZZb -> ZZc: null`" b w d
+        let c ← need "chainnullidx" fun d => chainNullRemovesAll "`(ZZa -> ZZb -> ZZc)[0]: null`" b w d
+        pure (firstViol [a, c])
+      | _ => pure (some ("redeclaration-rejected", "ZZa -> ZZb -> ZZc: ZZl"))
+    return violToVerdict (firstViol [v8, v1, v2, v3, v4, v5, v6, v7])
   | _ => return .bad "base program of a differential case does not compile"
 
 def handleC10 (j : Json) : Except String Verdict := do
